@@ -21,13 +21,26 @@ class Wrapped:
 REENTRIES = [0]
 _MINI = [None]
 _DEPTH = [0]
-MINI_SCHEMA = ("<schema><sectiontype name='s'><key name='k' "
-               "datatype='integer'/><multikey name='m'/></sectiontype>"
+MINI_SCHEMA = ("<schema handler='top'><sectiontype name='s'><key name='k' "
+               "datatype='integer' handler='h1'/><multikey name='m'/>"
+               "</sectiontype>"
                "<multisection type='s' name='*' attribute='ss'/>"
                "<key name='k' default='d'/><key name='+' attribute='w'/>"
-               "</schema>")
-MINI_TEXT = ("%define x 1\n%define Y ${x}2\nk $Y\nother v\n<s a>\n  k 2\n"
-             "  m $x\n  m $$\n</s>\n<S/>\n")
+               "<multikey name='mk' handler='H3'/></schema>")
+# names the outer texts use as well: defines a, b, Def1; sections main, s1
+MINI_TEXT = ("%define x 1\n%define Y ${x}2\n%define a INNER\n"
+             "%define Def1 ${a}-D\n%define b $a\nk $Y\nother $Def1$b\n"
+             "<s main>\n  k 2\n"
+             "  m $x\n  m $$\n</s>\n<S s1/>\nmk 1\nmk 2\n<s main2>\n</s>\n")
+MINI_WANT = ("12", {"other": "INNER-DINNER"},
+             [("main", 2, ["1", "$"]), ("s1", None, []), ("main2", None, [])],
+             ["1", "2"], 5, "1-2$")
+# ... and once more under command-line overrides
+MINI_OVERRIDES = ["k=ov", "main/m=x", "s1/k=7", "mk=3"]
+MINI_WANT_OV = ("ov", {"other": "INNER-DINNER"},
+                [("main", 2, ["x"]), ("s1", 7, []), ("main2", None, [])],
+                ["3"], 5, "1-2$")
+ALSO = [None]         # a check may add a load of its own (a callable)
 
 
 class ReentryBroken(Exception):
@@ -45,15 +58,31 @@ def reenter():
         REENTRIES[0] += 1
         if _MINI[0] is None or REENTRIES[0] % 50 == 0:
             _MINI[0] = ZConfig.loadSchemaFile(io.StringIO(MINI_SCHEMA))
-        cfg, handler = ZConfig.loadConfigFile(_MINI[0],
-                                              io.StringIO(MINI_TEXT))
-        got = (cfg.k, dict(cfg.w), [(x.getSectionName(), x.k, list(x.m))
-                                    for x in cfg.ss], len(handler),
-               substitute("$a-${B}$$", {"a": "1", "b": "2"}))
-        want = ("12", {"other": "v"}, [("a", 2, ["1", "$"]),
-                                       (None, None, [])], 0, "1-2$")
-        if got != want:
-            raise ReentryBroken("nested load gave %r, not %r" % (got, want))
+        for ov, want in ((None, MINI_WANT), (MINI_OVERRIDES, MINI_WANT_OV)):
+            if ov and REENTRIES[0] % 3:
+                continue
+            if ov:
+                cfg, handler = ZConfig.loadConfigFile(
+                    _MINI[0], io.StringIO(MINI_TEXT), overrides=ov)
+            else:
+                cfg, handler = ZConfig.loadConfigFile(_MINI[0],
+                                                      io.StringIO(MINI_TEXT))
+            got = (cfg.k, dict(cfg.w),
+                   [(x.getSectionName(), x.k, list(x.m)) for x in cfg.ss],
+                   list(cfg.mk), len(handler),
+                   substitute("$a-${B}$$", {"a": "1", "b": "2"}))
+            if got != want:
+                raise ReentryBroken("nested load gave %r, not %r"
+                                    % (got, want))
+            seen = []
+            handler({"h1": lambda v: seen.append(("h1", v)),
+                     "h3": lambda v: seen.append(("h3", v)),
+                     "TOP": lambda v: seen.append(("top", v is cfg))})
+            if [x[0] for x in seen] != ["h1", "h1", "h1", "h3", "top"] or \
+                    seen[-1] != ("top", True):
+                raise ReentryBroken("nested handler delivered %r" % (seen,))
+        if ALSO[0] is not None:
+            ALSO[0]()
         try:
             ZConfig.loadConfigFile(_MINI[0], io.StringIO("<s>\n k x\n</s>\n"))
         except ZConfig.DataConversionError:
